@@ -59,6 +59,17 @@ type Ctx struct {
 	// Phase is a free-form marker the engine may set so that a fatal crash / hang can be
 	// attributed more precisely ("entry=Decode reader=eof-at-17").
 	phase atomic.Value
+	ws    *workerState
+}
+
+// StartCall restarts the CPU-time watchdog for one library call with its own budget, so that
+// "still running after its budget" is decided per call and not per case.
+func (c *Ctx) StartCall(budget time.Duration) {
+	if c.ws == nil {
+		return
+	}
+	c.ws.budget.Store(int64(budget))
+	c.ws.caseStart.Store(int64(cpuTime()))
 }
 
 func (c *Ctx) SetPhase(s string) { c.phase.Store(s) }
@@ -171,6 +182,7 @@ func RunWorker(e Engine, c *Ctx, from, to, stride int, outPath, progressPath, ha
 	defer pf.Close()
 	st := &workerState{}
 	st.curIndex.Store(-1)
+	c.ws = st
 	var budgeter CPUBudgeter
 	if b, ok := e.(CPUBudgeter); ok {
 		budgeter = b
